@@ -113,3 +113,61 @@ def derived_pair(ctx):
                                       % (a, b, st.lineno, b, ', '.join(map(str, later)), r.lineno, a, b)))
     obs.append(Ob('SA-FRESH.derived_pair', 'returned pairs with an arithmetic derivation examined', True, '', '%d' % n))
     return obs
+
+
+@rule('SA-FRESH.clamped')
+@props('C12')
+def clamped(ctx):
+    """A value that was clamped - `cc = min(<cylinders>, 1024)`, the cylinder count as far as the 10-bit CHS field can
+    express it - is good for that field only.  Multiplying it back (`cc * heads * sectors * 512`) does not give the size
+    it was derived from once the clamp has bitten: on a hybrid image of more than 1024 cylinders the backup GPT would be
+    placed in the middle of the ISO and overwrite file data.  For every function of the hybrid module that returns a
+    tuple with a clamped element, no consumer uses that element as an operand of a multiplication."""
+    obs = []
+    n = 0
+    for fi in ctx.m.pkg_functions():
+        if fi.module != 'isohybrid':
+            continue
+        rets = [r for r in ctx.own_nodes(fi) if isinstance(r, ast.Return) and isinstance(r.value, ast.Tuple)]
+        if not rets:
+            continue
+        clamped_idx = set()
+        for r in rets:
+            for i, e in enumerate(r.value.elts):
+                v = ex.expand(ctx, fi, e, r)
+                for c in ast.walk(v):
+                    if isinstance(c, ast.Call) and isinstance(c.func, ast.Name) and c.func.id == 'min' and any(isinstance(a, ast.Constant) for a in c.args):
+                        clamped_idx.add(i)
+        if not clamped_idx:
+            continue
+        for caller, c in ctx.callers().get(fi.qual, []):
+            par = ctx.parents(caller)
+            p = par.get(id(c.node))
+            names = set()
+            direct = []
+            if isinstance(p, ast.Subscript) and isinstance(p.slice, ast.Constant) and p.slice.value in clamped_idx:
+                pp = par.get(id(p))
+                if isinstance(pp, ast.Assign) and len(pp.targets) == 1 and isinstance(pp.targets[0], ast.Name):
+                    names.add(pp.targets[0].id)
+                else:
+                    direct.append(p)
+            elif isinstance(p, ast.Assign) and len(p.targets) == 1 and isinstance(p.targets[0], (ast.Tuple, ast.List)):
+                for i, t in enumerate(p.targets[0].elts):
+                    if i in clamped_idx and isinstance(t, ast.Name):
+                        names.add(t.id)
+            if not names and not direct:
+                continue
+            n += 1
+            bad = None
+            for m in ctx.own_nodes(caller):
+                if isinstance(m, ast.BinOp) and isinstance(m.op, ast.Mult):
+                    for y in ast.walk(m):
+                        if (isinstance(y, ast.Name) and y.id in names) or any(y is d for d in direct):
+                            bad = m
+            obs.append(Ob('SA-FRESH.clamped', '%s|clamped result of %s' % (caller.qual, fi.name), bad is None, ctx.loc(caller, bad if bad is not None else c.node),
+                          '' if bad is None else '`%s` multiplies the clamped element of %s() (`min(..., const)`: the cylinder count as far as the CHS field can hold it): beyond '
+                          'the clamp the product is smaller than the padded image, and everything placed with it (backup GPT, last usable LBA) lands inside the ISO'
+                          % (norm(bad)[:80], fi.name)))
+    if n < 1:
+        raise AnalysisError('anchor-vanished: consumers of a clamped tuple element in isohybrid')
+    return obs
